@@ -35,6 +35,16 @@ pub fn run_one(
     // the run's entropy stream.
     std::thread::Builder::new().stack_size(16 << 20).spawn(move || {
         #[cfg(feature = "shuttle")]
+        if property == "C36" && seed % 8 == 0 {
+            // A share of the runs counts real connections on the loopback
+            // listener (Engine G), including connections whose setup
+            // fails. That engine cannot run on shuttle's primitives: the
+            // run is handed to the ordinary build of this program.
+            if let Ok(bin) = std::env::var("VERIF_PLAIN_BIN") {
+                return run_via_plain(&bin, &property, tier, seed, &mask)
+            }
+        }
+        #[cfg(feature = "shuttle")]
         if crate::engd::supported(&property) {
             return crate::engd::run(&property, seed, &mask, &scratch)
         }
@@ -61,7 +71,7 @@ pub fn run_one(
         if property == "C29" {
             return crate::engb::run_c29(seed as usize, &scratch)
         }
-        if property == "C19" {
+        if property == "C19" || property == "C36" {
             return crate::engg::run(
                 seed, tier == Tier::Thorough, &mask, &scratch
             )
@@ -106,6 +116,87 @@ pub fn run_one(
             ops: Vec::new(),
         }
     })
+}
+
+/// Executes one run in the ordinary (non-shuttle) build and reads back its
+/// result.
+#[cfg(feature = "shuttle")]
+fn run_via_plain(
+    bin: &str, property: &str, tier: Tier, seed: u64,
+    mask: &BTreeSet<(usize, usize)>,
+) -> RunResult {
+    let mask_json = serde_json::to_string(
+        &mask.iter().map(|(a, b)| vec![*a, *b]).collect::<Vec<_>>()
+    ).unwrap();
+    let out = std::process::Command::new(bin)
+        .args(["one", property,
+            if tier == Tier::Thorough { "thorough" } else { "quick" },
+            &seed.to_string(), &mask_json])
+        .output();
+    let harness = |msg: String| RunResult {
+        seed,
+        violations: vec![crate::common::Violation {
+            property: "harness", class: "plain-run".into(), message: msg,
+            step: 0,
+        }],
+        stats: Default::default(), log: Vec::new(), ops: Vec::new(),
+    };
+    let out = match out {
+        Ok(out) if out.status.success() => out,
+        Ok(out) => return harness(format!("plain run ended with {}", out.status)),
+        Err(err) => return harness(format!("cannot start {bin}: {err}")),
+    };
+    let Ok(doc) = serde_json::from_slice::<Value>(&out.stdout) else {
+        return harness("plain run printed no result".into())
+    };
+    let mut res = RunResult {
+        seed, violations: Vec::new(), stats: Default::default(),
+        log: Vec::new(), ops: Vec::new(),
+    };
+    for v in doc["violations"].as_array().cloned().unwrap_or_default() {
+        res.violations.push(crate::common::Violation {
+            property: match v["property"].as_str() {
+                Some("C36") => "C36", Some("C19") => "C19", _ => "harness",
+            },
+            class: v["class"].as_str().unwrap_or("").into(),
+            message: v["message"].as_str().unwrap_or("").into(),
+            step: v["step"].as_u64().unwrap_or(0) as usize,
+        });
+    }
+    for (key, into) in [("faults", &mut res.stats.faults),
+                        ("probes", &mut res.stats.probes)] {
+        if let Some(map) = doc[key].as_object() {
+            for (k, v) in map {
+                into.insert(k.clone(), v.as_u64().unwrap_or(0));
+            }
+        }
+    }
+    res.stats.steps = doc["steps"].as_u64().unwrap_or(0);
+    res.stats.signature = format!("plain:{}", doc["signature"].as_str().unwrap_or(""));
+    res.ops = doc["ops"].as_array().cloned().unwrap_or_default();
+    res.log = doc["log"].as_array().map(|a| {
+        a.iter().filter_map(|l| l.as_str().map(String::from)).collect()
+    }).unwrap_or_default();
+    res
+}
+
+/// `rtsim one <property> <tier> <seed> [mask-json]`: one run, result on
+/// stdout.
+pub fn cmd_one(args: &[String]) -> i32 {
+    let property = &args[0];
+    let tier = tier_from(&args[1]);
+    let seed: u64 = args[2].parse().unwrap();
+    let mask: BTreeSet<(usize, usize)> = args.get(3).and_then(|text| {
+        serde_json::from_str::<Vec<Vec<usize>>>(text).ok()
+    }).map(|list| list.into_iter().filter(|p| p.len() == 2).map(|p| {
+        (p[0], p[1])
+    }).collect()).unwrap_or_default();
+    let scratch = scratch_dir();
+    limit_process();
+    let res = run_one(property, tier, seed, &mask, &scratch);
+    let _ = std::fs::remove_dir_all(&scratch);
+    println!("{}", result_json(property, 0, &res, true));
+    0
 }
 
 pub fn scratch_dir() -> PathBuf {
